@@ -373,7 +373,28 @@ def run(ck):
     cases = gen(rng, quick)
     scripts = [(sid, lines_of(c, f, steps, recv)) for sid, d, good, c, f, steps, recv in cases]
     ck.count("scripts", len(scripts))
-    rc = runner.run_batch(exe, scripts)
+    # scripts with truncated ASDUs abort the process when a decoder result is dereferenced unchecked; every abort costs a
+    # restart of the batch, so they run in groups and the run stops adding groups once a group produced many aborts
+    safe = [x for x in scripts if ".truncated-" not in x[0]]
+    risky = sorted([x for x in scripts if ".truncated-" in x[0]], key=lambda x: (int(x[0].split(".")[2]), x[0].split(".")[0]))
+    rc = runner.run_batch(exe, safe)
+    skipped, stale_groups, seen_sigs = 0, 0, set()
+    for g in range(0, len(risky), 24):
+        grp = risky[g:g + 24]
+        if skipped:
+            skipped += len(grp)
+            continue
+        r = runner.run_batch(exe, grp)
+        rc.update(r)
+        sigs = {(v["crash"]["kind"], v["crash"]["site"]) for v in r.values() if v["crash"]}
+        stale_groups = stale_groups + 1 if (sigs and sigs <= seen_sigs) else 0
+        seen_sigs |= sigs
+        if stale_groups >= 3:                       # three groups in a row with aborts but no new abort site
+            skipped = 1
+    if skipped > 1:
+        ck.count("scripts_skipped_after_repeated_aborts", skipped - 1)
+        cases = [x for x in cases if x[0] in rc]
+        scripts = [x for x in scripts if x[0] in rc]
     rm = runner.run_batch(mexe, scripts) if mexe else {}
     ndiff = 0
     for (sid, d, good, c, f, steps, recv), (_, lines) in zip(cases, scripts):
